@@ -1,7 +1,8 @@
 /-
-  C03 — log ∘ exp on SO(3), acute angles: the logarithm of Rodrigues' rotation about a unit axis a through θ (cos θ ≥ 0, sin θ > 0)
-  is θ·a, given that atan2 inverts (cos, sin) at θ.  Together with `C03.trexp_so3_value` (trexp(w) is that rotation for a = w/‖w‖,
-  θ = ‖w‖) this is log(exp(w)) = w on that range.
+  C03 — log ∘ exp: the logarithm of Rodrigues' rotation about a unit axis a through θ with sin θ > 0 (acute branch directly, obtuse
+  branch through `C03.exp_log_SO3_obtuse` and the uniqueness of the axis) is θ·a, given that atan2 inverts (cos, sin) at θ.  With
+  `C03.trexp_so3_value` / `trexp_6_rot` (what trexp evaluates) this gives log(exp(w)) = w on SO(3) and, with G⁻¹G = I, log(exp(S)) = S
+  on SE(3), for 0 < ‖w‖ < π.
 -/
 import SmVerif.Props.C03
 import SmVerif.Props.SE3Log
@@ -44,10 +45,70 @@ theorem log_of_rodM (hS : P.Sqrt) (a : Vec 3 R) (θ : R) (ha : a 0 ^ 2 + a 1 ^ 2
     have hs0 : s ≠ 0 := ne_of_gt hpos
     intro i; fin_cases i <;> simp <;> field_simp
 
-/-- **log(exp(w)) = w on SO(3)** for 0 < ‖w‖ with cos‖w‖ ≥ 0 and sin‖w‖ > 0 (rotation magnitude up to a quarter turn; outside the
-    identity band of the logarithm), given that atan2 inverts (cos, sin) at ‖w‖ -/
-theorem log_exp_SO3_acute (hS : P.Sqrt) (w : Vec 3 R) (M : Mat 3 3 R) (hM : Gen.trexp_3 P w = .ok M)
-    (hpos : 0 < P.sin (P.sqrt (w 0 * w 0 + w 1 * w 1 + w 2 * w 2))) (hc : 0 ≤ P.cos (P.sqrt (w 0 * w 0 + w 1 * w 1 + w 2 * w 2)))
+/-- Rodrigues' rotation determines its unit axis when sin θ ≠ 0 -/
+theorem rod_axis_unique (a a' : Vec 3 R) (c s : R) (hs : s ≠ 0) (h : rodM a c s = rodM a' c s) : a = a' := by
+  have k0 : (rodM a c s 2 1 - rodM a c s 1 2) / 2 = s * a 0 := by simp [rodM, skew3, mmul, one3, Fin.sum_univ_three]; ring
+  have k1 : (rodM a c s 0 2 - rodM a c s 2 0) / 2 = s * a 1 := by simp [rodM, skew3, mmul, one3, Fin.sum_univ_three]; ring
+  have k2 : (rodM a c s 1 0 - rodM a c s 0 1) / 2 = s * a 2 := by simp [rodM, skew3, mmul, one3, Fin.sum_univ_three]; ring
+  have k0' : (rodM a' c s 2 1 - rodM a' c s 1 2) / 2 = s * a' 0 := by simp [rodM, skew3, mmul, one3, Fin.sum_univ_three]; ring
+  have k1' : (rodM a' c s 0 2 - rodM a' c s 2 0) / 2 = s * a' 1 := by simp [rodM, skew3, mmul, one3, Fin.sum_univ_three]; ring
+  have k2' : (rodM a' c s 1 0 - rodM a' c s 0 1) / 2 = s * a' 2 := by simp [rodM, skew3, mmul, one3, Fin.sum_univ_three]; ring
+  rw [h] at k0 k1 k2
+  have q0 : a 0 = a' 0 := mul_left_cancel₀ hs (by rw [← k0, ← k0'])
+  have q1 : a 1 = a' 1 := mul_left_cancel₀ hs (by rw [← k1, ← k1'])
+  have q2 : a 2 = a' 2 := mul_left_cancel₀ hs (by rw [← k2, ← k2'])
+  funext i; fin_cases i
+  · exact q0
+  · exact q1
+  · exact q2
+
+/-- the logarithm of Rodrigues' rotation about a unit axis a through θ with cos θ < 0, sin θ > 0 is θ·a (all eight paths of the obtuse
+    branch), given that atan2 inverts (cos, sin) at θ -/
+theorem log_of_rodM_obtuse (hS : P.Sqrt) (hA : C03.Atan2Law P) (a : Vec 3 R) (θ : R) (ha : a 0 ^ 2 + a 1 ^ 2 + a 2 ^ 2 = 1)
+    (hcs : P.cos θ * P.cos θ + P.sin θ * P.sin θ = 1)
+    (hpos : 0 < P.sin θ) (hc : P.cos θ < 0) (hinv : P.atan2 (P.sin θ) (P.cos θ) = θ)
+    (L : Vec 3 R) (h : Gen.trlog_R_twist P (rodM a (P.cos θ) (P.sin θ)) = .ok L) :
+    L = v3 0 0 0 ∨ ∀ i, L i = a i * θ := by
+  have hm : IsSO3 (rodM a (P.cos θ) (P.sin θ)) := rodM_SO3 a _ _ ha hcs
+  generalize hcd : P.cos θ = c at *
+  generalize hsd : P.sin θ = s at *
+  have e0 : (rodM a c s 2 1 - rodM a c s 1 2) / 2 = s * a 0 := by simp [rodM, skew3, mmul, one3, Fin.sum_univ_three]; ring
+  have e1 : (rodM a c s 0 2 - rodM a c s 2 0) / 2 = s * a 1 := by simp [rodM, skew3, mmul, one3, Fin.sum_univ_three]; ring
+  have e2 : (rodM a c s 1 0 - rodM a c s 0 1) / 2 = s * a 2 := by simp [rodM, skew3, mmul, one3, Fin.sum_univ_three]; ring
+  have ec : (rodM a c s 0 0 + rodM a c s 1 1 + rodM a c s 2 2 - 1) / 2 = c := by
+    simp [rodM, skew3, mmul, one3, Fin.sum_univ_three]; linear_combination (c - 1) * ha
+  have hsq : P.sqrt ((rodM a c s 2 1 - rodM a c s 1 2) / 2 * ((rodM a c s 2 1 - rodM a c s 1 2) / 2) + (rodM a c s 0 2 - rodM a c s 2 0) / 2 * ((rodM a c s 0 2 - rodM a c s 2 0) / 2) + (rodM a c s 1 0 - rodM a c s 0 1) / 2 * ((rodM a c s 1 0 - rodM a c s 0 1) / 2)) = s := by
+    rw [e0, e1, e2]
+    have : s * a 0 * (s * a 0) + s * a 1 * (s * a 1) + s * a 2 * (s * a 2) = s * s := by linear_combination (s * s) * ha
+    rw [this]
+    have h1 := hS.mul_self _ (mul_self_nonneg s)
+    have h0 := hS.nonneg (s * s)
+    have h2 : (P.sqrt (s * s) - s) * (P.sqrt (s * s) + s) = 0 := by linear_combination h1
+    rcases mul_eq_zero.mp h2 with e | e
+    · linarith
+    · exfalso; linarith
+  rcases C03.exp_log_SO3_obtuse P hS hA (rodM a c s) hm L h (by rw [ec]; exact hc) (by rw [hsq]; exact hpos) with h0 | ⟨a', θ', hθ', hL, ha', hrod⟩
+  · left; exact h0
+  right
+  rw [hsq, ec, hinv] at hθ'
+  subst hθ'
+  rw [hcd, hsd] at hrod
+  have := rod_axis_unique a' a c s (ne_of_gt hpos) hrod
+  intro i; rw [hL i, this]
+
+/-- the same for every angle with sin θ > 0 -/
+theorem log_of_rodM_pos (hS : P.Sqrt) (hA : C03.Atan2Law P) (a : Vec 3 R) (θ : R) (ha : a 0 ^ 2 + a 1 ^ 2 + a 2 ^ 2 = 1)
+    (hcs : P.cos θ * P.cos θ + P.sin θ * P.sin θ = 1) (hpos : 0 < P.sin θ) (hinv : P.atan2 (P.sin θ) (P.cos θ) = θ)
+    (L : Vec 3 R) (h : Gen.trlog_R_twist P (rodM a (P.cos θ) (P.sin θ)) = .ok L) :
+    L = v3 0 0 0 ∨ ∀ i, L i = a i * θ := by
+  rcases le_or_gt 0 (P.cos θ) with hc | hc
+  · exact log_of_rodM P hS a θ ha hpos hc hinv L h
+  · exact log_of_rodM_obtuse P hS hA a θ ha hcs hpos hc hinv L h
+
+/-- **log(exp(w)) = w on SO(3)** for every rotation vector with sin‖w‖ > 0 (0 < ‖w‖ < π; acute and obtuse branch of the logarithm, outside
+    its identity band), given that atan2 inverts (cos, sin) at ‖w‖ -/
+theorem log_exp_SO3 (hS : P.Sqrt) (hT : P.Trig) (hA : C03.Atan2Law P) (w : Vec 3 R) (M : Mat 3 3 R) (hM : Gen.trexp_3 P w = .ok M)
+    (hpos : 0 < P.sin (P.sqrt (w 0 * w 0 + w 1 * w 1 + w 2 * w 2)))
     (hinv : P.atan2 (P.sin (P.sqrt (w 0 * w 0 + w 1 * w 1 + w 2 * w 2))) (P.cos (P.sqrt (w 0 * w 0 + w 1 * w 1 + w 2 * w 2))) = P.sqrt (w 0 * w 0 + w 1 * w 1 + w 2 * w 2))
     (L : Vec 3 R) (hL : Gen.trlog_R_twist P M = .ok L) :
     M = one3 ∨ L = v3 0 0 0 ∨ L = w := by
@@ -62,15 +123,15 @@ theorem log_exp_SO3_acute (hS : P.Sqrt) (w : Vec 3 R) (M : Mat 3 3 R) (hM : Gen.
   have ha : (fun i => w i / n) 0 ^ 2 + (fun i => w i / n) 1 ^ 2 + (fun i => w i / n) 2 ^ 2 = 1 := by
     simp only []; field_simp; linear_combination hnn
   rw [hMv] at hL
-  rcases log_of_rodM P hS (fun i => w i / n) n ha hpos hc hinv L hL with h0 | h0
+  rcases log_of_rodM_pos P hS hA (fun i => w i / n) n ha (hT n) hpos hinv L hL with h0 | h0
   · left; exact h0
   · right; funext i; rw [h0 i]; field_simp
 
-/-- **log(exp(S)) = S on SE(3)** for a twist S = (v, w) on the rotational path of `trexp` with cos‖w‖ ≥ 0, sin‖w‖ > 0 (outside the
-    identity bands of the logarithm), given that atan2 inverts (cos, sin) at ‖w‖ and the half-angle tangent law -/
-theorem log_exp_SE3_acute (hS : P.Sqrt) (hTan : TanLaw P) (S : Vec 6 R) (T : Mat 4 4 R) (hT : Gen.trexp_6 P S = .ok T)
+/-- **log(exp(S)) = S on SE(3)** for every twist S = (v, w) on the rotational path of `trexp` with sin‖w‖ > 0 (outside the identity bands
+    of the logarithm), given that atan2 inverts (cos, sin) at ‖w‖ and the half-angle tangent law -/
+theorem log_exp_SE3 (hS : P.Sqrt) (hT' : P.Trig) (hA : C03.Atan2Law P) (hTan : TanLaw P) (S : Vec 6 R) (T : Mat 4 4 R) (hT : Gen.trexp_6 P S = .ok T)
     (hw : ¬ (P.sqrt (S 3 * S 3 + S 4 * S 4 + S 5 * S 5) < 5 / 2251799813685248))
-    (hpos : 0 < P.sin (P.sqrt (S 3 * S 3 + S 4 * S 4 + S 5 * S 5))) (hc : 0 ≤ P.cos (P.sqrt (S 3 * S 3 + S 4 * S 4 + S 5 * S 5)))
+    (hpos : 0 < P.sin (P.sqrt (S 3 * S 3 + S 4 * S 4 + S 5 * S 5)))
     (hinv : P.atan2 (P.sin (P.sqrt (S 3 * S 3 + S 4 * S 4 + S 5 * S 5))) (P.cos (P.sqrt (S 3 * S 3 + S 4 * S 4 + S 5 * S 5))) = P.sqrt (S 3 * S 3 + S 4 * S 4 + S 5 * S 5))
     (S' : Vec 6 R) (hL : Gen.trlog_T_twist P T = .ok S') :
     S' = v6 0 0 0 0 0 0 ∨ S' = v6 (T 0 3) (T 1 3) (T 2 3) 0 0 0 ∨ (S' 3 = 0 ∧ S' 4 = 0 ∧ S' 5 = 0) ∨ S' = S := by
@@ -96,7 +157,7 @@ theorem log_exp_SE3_acute (hS : P.Sqrt) (hTan : TanLaw P) (S : Vec 6 R) (T : Mat
   · right; left; exact g0
   right; right
   rw [hrot] at hR
-  rcases log_of_rodM P hS _ n ha hpos hc hinv _ hR with hz | hLw
+  rcases log_of_rodM_pos P hS hA _ n ha (hT' n) hpos hinv _ hR with hz | hLw
   · left
     have z0 := congrFun hz 0; have z1 := congrFun hz 1; have z2 := congrFun hz 2
     simp only [v3_0, v3_1, v3_2] at z0 z1 z2
